@@ -86,6 +86,9 @@ def _configs(tier):
         for low in range(w):
             for high in range(low, w):
                 A({'block': 'Range', 'w': w, 'high': high, 'low': low})
+                # the result wire is wider than the extracted field (the field is right aligned, the bits above it are 0)
+                for rx in (1, 2):
+                    A({'block': 'Range', 'w': w, 'high': high, 'low': low, 'rx': rx})
     for b in ('ConcatenateLSBF', 'ConcatenateMSBF'):
         for total in range(1, 6 if T else 4):
             for parts in _compositions(total, 3):
@@ -311,7 +314,7 @@ def build(d):
     elif b == 'Bit':
         args = (I('a', w), d['bit'], O('r'))
     elif b == 'Range':
-        args = (I('a', w), d['high'], d['low'], O('r', d['high'] - d['low'] + 1))
+        args = (I('a', w), d['high'], d['low'], O('r', d['high'] - d['low'] + 1 + d.get('rx', 0)))
     elif b in ('BitsLSBF', 'BitsMSBF'):
         args = (I('a', w), OL('b', w))
     elif b in ('ConcatenateLSBF', 'ConcatenateMSBF'):
